@@ -367,6 +367,12 @@ func (e *FnEnc) loopModSet(li *loopInfo) map[string]bool {
 					}
 					continue
 				}
+				if c.IsInvoke() {
+					key := "invoke:" + types.TypeString(c.Value.Type(), nil) + "." + c.Method.Name()
+					if e.W.NoHeapEffect(key) {
+						continue
+					}
+				}
 				if f := c.StaticCallee(); f != nil {
 					name := calleeName(f)
 					if _, ok := libModels[name]; ok {
